@@ -30,6 +30,54 @@ C("C19", "exploration",
   "and lattice points in dimensions 1..12; shape and real-scalar return are asserted.",
   TB, "numerical-derivative oracle over sampled inputs", "5 C19")
 
+C("C01", "exploration",
+  "Thousands of strictly convex box problems (three families, every box kind, starts on faces/vertices with outward gradients, every start "
+  "activity pattern for small n) are solved by the real minimiser; the projected-gradient norm recomputed from the harness's own gradient "
+  "must be at the tolerance / floating-point resolution level whatever message is returned.",
+  TB + " Resolution estimate sqrt(L*eps*Fabs) with a calibrated factor 20 (largest ratio seen on correct code is reported).",
+  "end-to-end oracle on returned points over generated workloads", "5 C01")
+C("C02", "exploration",
+  "Recorder around the user's objective/gradient/callback: every argument ever received (finite-difference stencil points included), every "
+  "callback iterate/state and the result are compared exactly with the box over thousands of bounded runs in all five gradient modes.",
+  TB, "boundary recorder + exact box assertion on every evaluation event", "5 C02")
+C("C03", "exploration",
+  "The objective is re-evaluated by the harness at x0, every callback iterate and the result of runs with tiny line-search / evaluation "
+  "budgets and overflowing objectives; the sequence must be non-increasing exactly. Intercepted line searches count how many ended without convergence.",
+  TB, "monotonicity monitor over recorded iterates", "5 C03")
+C("C04", "exploration",
+  "Every implication of the statement (message vs state, success flag, iteration/evaluation budgets, single invocation of callable stop "
+  "criteria) is evaluated on each returned result over a sampled configuration lattice and on restarts below/at/above the checkpoint's nit.",
+  TB, "implication monitor on returned results over a configuration lattice", "5 C04")
+C("C05", "exploration",
+  "fun/jac of every callback state and result are compared bit-for-bit with the pure closures at the reported x (times the scaler), nfev/njev "
+  "with the call log, across chains of up to 4 restarts.",
+  TB, "re-evaluation oracle + call-count conservation", "5 C05")
+C("C06", "exploration",
+  "For every split k of short runs: zero-iteration restart (same state, same most recent pairs), next iterate vs the uninterrupted run, chained "
+  "restarts, and reduced maxcor vs a truncated checkpoint.",
+  TB + " Continuation tolerance 1e-9 relative (observed 8e-15).", "differential monitor restart vs uninterrupted run at every split point", "5 C06")
+C("C07", "fault_enumeration",
+  "Every iteration of every explored run is a crash point: the state kept by reference is re-read later (no mutation), compared with "
+  "run(maxiter=state.nit), and after a simulated kill at every later objective call the restart from it must reproduce the uninterrupted continuation.",
+  TB + " Crash = BaseException raised from the objective.", "crash injection at every objective-call index + snapshot comparison", "5 C07")
+C("C08", "exploration",
+  "get_cauchy_point is called on every structural pattern (position x gradient sign x bound finiteness, n<=2 quick / n<=3 thorough) x memory "
+  "sizes x tie variants and on random inputs, and intercepted inside real runs; point, pinning, feasibility, model decrease and auxiliary "
+  "vector are compared with a dense reference.",
+  TB + " Tolerances calibrated (point 1e-9 vs observed 5e-13; aux vector 1e-7 vs 1e-10).", "reference-model monitor on synthetic and intercepted calls", "5 C08")
+C("C09", "exploration",
+  "subspace_minimization (with get_freev) is fed reference Cauchy points on structural patterns and random inputs and intercepted in real runs; "
+  "compared with a dense truncated reduced-Newton reference; active variables bit-unchanged; model decrease; descent.",
+  TB, "reference-model monitor on synthetic and intercepted calls", "5 C09")
+C("C10", "exploration",
+  "Histories of up to 40 accepted/rejected candidate updates and every update intercepted in real runs are judged against a shadow FIFO memory "
+  "and a dense BFGS recursion (equality, symmetry, Cholesky, secant); the matrix handed to the Cauchy routine is compared with the live deques.",
+  TB + " Tolerance 1e3*(cond(B)+cond(middle matrix))*eps, calibrated (largest ratio 5.6).", "shadow-state + dense reference monitor over update histories", "5 C10")
+C("C11", "exploration",
+  "Direct calls of line_search on logged objectives (convex, oscillating, sinusoid, overflowing, finite-resolution plateaus): every evaluated "
+  "point in the box, evaluations <= cap, returned step in (0, max feasible] and strictly downhill among the logged trials.",
+  TB, "boundary recorder + postcondition monitor on direct calls", "5 C11")
+
 ALL = [f"C{i:02d}" for i in range(1, 21)]
 
 
